@@ -8,8 +8,9 @@ import N0Verif.Model.Esc
   `isnumber` (`n0struct_utils.py`, `max_len=None`) and of what `save_file` writes for a mapping
   (`n0struct_files.py`: one line `f"{key}{equal_tag}{value}"` per entry) — property C17, INI part.
 
-  The model follows the code **with fix patch C17-f applied** (a value that `isnumber` accepts but
-  `int()`/`float()` reject stays text instead of raising `ValueError`).
+  The model follows the code **with fix patches C17-f and C17-g applied** (C17-f: a value that
+  `isnumber` accepts but `int()`/`float()` reject stays text instead of raising `ValueError`;
+  C17-g: the key of a `KEY +=VALUE` line is stripped again after its `+` is dropped).
 
   Scope:
   * the equal tag is one string (possibly empty: `split_pair` then never splits);
@@ -218,10 +219,13 @@ def parseLine (eq line : Str) : PyM (Str × Val) := do
 /-- `concatenate_sign` -/
 def marker : Char := Char.ofNat 0x16
 
+/-- `s.rstrip()` -/
+def rstripWs (s : Str) : Str := (s.reverse.dropWhile isPySpace).reverse
+
 /-- the body of the loop after `split_pair`: the `+` rule and the assignment -/
 def store (acc : List (Str × Val)) (key : Str) (value : Val) : List (Str × Val) :=
   if key.getLast? = some '+' then
-    let key' := key.dropLast
+    let key' := rstripWs key.dropLast             -- fix C17-g
     match Val.lookup key' acc with
     | some old => Esc.dictSet key' (.str (Esc.pyStr old ++ Esc.pyStr value)) acc
     | none => Esc.dictSet key' (.str (marker :: Esc.pyStr value)) acc
